@@ -168,7 +168,7 @@ struct Plan {
 fn plan(tier: Tier) -> Plan {
     match tier {
         Tier::Quick => Plan { depth: 3, pool_cap: 300, full_grid: false, widths: vec![8, 16, 32, 64] },
-        Tier::Thorough => Plan { depth: 3, pool_cap: 1500, full_grid: true, widths: vec![8, 16, 32, 64] },
+        Tier::Thorough => Plan { depth: 3, pool_cap: 600, full_grid: true, widths: vec![8, 16, 32, 64] },
     }
 }
 
@@ -292,8 +292,8 @@ pub fn info(tier: Tier) -> CheckInfo {
         rule: format!(
             "Breadth-first closure of the public ir::Expr API from the atoms val(c), c in {{0,1,2,3,-1,2^(w-1),2^(w-1)±1}} and var(0..2), \
              deduplicated on the expression's own Eq/Hash: the closure is computed level by level to depth 3: all ordered pairs of pool members under add, mul and \
-             substitution symb_evaluate[0:=y], plus neg, normalize, half of every member; new results join the pool (capped at {} members, \
-             enumeration order; the cap only binds at the last level). Every result \
+             substitution symb_evaluate[0:=y], plus neg, normalize, half of every member; new results join the pool (capped at {} members in \
+             enumeration order; the cap binds from the second level on and is part of the bound). Every result \
              is evaluated under {} and compared with the arithmetic on the operands' values; on every result neg, normalize, half \
              (doubling must give the value back) and every decomposition that answers (constant, constant_part, identity, inc_of, \
              prod_inc_of, const_inc_of, prod_of for each variable) must recompose to the same value under all assignments. widths {:?}. \
